@@ -42,6 +42,8 @@ func libModVars(ex *Exec, name string) []string {
 		return reg("W")
 	case "time.Now":
 		return reg("now")
+	case "github.com/google/uuid.NewRandom":
+		return reg("uuidDraws")
 	case "net.DialTCP", "net.Dial":
 		return reg("dials", "dialok")
 	case "(*sync.Mutex).Lock", "(*sync.Mutex).Unlock":
@@ -107,10 +109,11 @@ func init() {
 			n := vc.fresh("cwn", SInt)
 			vc.assume(and("(>= "+n+" 0)", "(<= "+n+" (str.len "+args[0].T+"))", imp(eq(errv.T, "anyNil"), eq(n, "(str.len "+args[0].T+")"))))
 			ok := eq(errv.T, "anyNil")
-			for _, g := range [][3]string{{"wok", "(seq.unit " + recv.T + ")", "1"}, {"wbytes", "(seq.unit " + args[0].T + ")", "1"}, {"wfail", "(seq.unit " + recv.T + ")", "0"}} {
+			for _, g := range [][3]string{{"wok", recv.T, "1"}, {"wbytes", args[0].T, "1"}, {"wfail", recv.T, "0"}} {
 				gv := fr.ghost(g[0])
 				old := ex.get(fr.cur, gv)
-				app := "(seq.++ " + old + " " + g[1] + ")"
+				el := ex.svSort(gv).Elem
+				app := sqApp(old, sqUnit(g[1], el), el)
 				if g[2] == "1" {
 					ex.set(fr.cur, gv, ite(ok, app, old))
 				} else {
@@ -122,7 +125,7 @@ func init() {
 		"net.Conn.Close": func(fr *Frame, ins ssa.Instruction, recv *Val, args []*Val, rs *Sort) *Val {
 			ex := fr.ex
 			gv := fr.ghost("closedC")
-			ex.set(fr.cur, gv, "(seq.++ "+ex.get(fr.cur, gv)+" (seq.unit "+recv.T+"))")
+			ex.set(fr.cur, gv, sqApp(ex.get(fr.cur, gv), sqUnit(recv.T, SAny), SAny))
 			return fr.havocVal("closeerr", SAny)
 		},
 		"io.Writer.Write": func(fr *Frame, ins ssa.Instruction, recv *Val, args []*Val, rs *Sort) *Val {
@@ -258,6 +261,18 @@ func init() {
 		},
 		"(*net.UDPAddr).String": func(fr *Frame, ins ssa.Instruction, a []*Val, rs *Sort) *Val {
 			return &Val{T: "(udpAddrString " + a[0].T + ")", S: SString}
+		},
+		"github.com/google/uuid.NewRandom": func(fr *Frame, ins ssa.Instruction, a []*Val, rs *Sort) *Val {
+			// a random UUID: the drawn value is recorded in ghost uuidDraws; outcome (error) unconstrained
+			ex := fr.ex
+			u := fr.havocVal("uuid", SString)
+			errv := fr.havocVal("uuiderr", SAny)
+			g := fr.ghost("uuidDraws")
+			ex.set(fr.cur, g, ite(eq(errv.T, "anyNil"), sqApp(ex.get(fr.cur, g), sqUnit(u.T, SString), SString), ex.get(fr.cur, g)))
+			return tuple(u, errv)
+		},
+		"(github.com/google/uuid.UUID).String": func(fr *Frame, ins ssa.Instruction, a []*Val, rs *Sort) *Val {
+			return &Val{T: "(uuidString " + a[0].T + ")", S: SString}
 		},
 		"net.ParseIP": func(fr *Frame, ins ssa.Instruction, a []*Val, rs *Sort) *Val {
 			// result modelled by length: 0 (nil) or 16
@@ -441,9 +456,9 @@ func (fr *Frame) dial(ins ssa.Instruction, asIface bool) *Val {
 	id := ex.typeIDByName("*net.TCPConn")
 	anyConn := fmt.Sprintf("(mkAny %d %s \"\")", id, r)
 	gv := fr.ghost("dials")
-	ex.set(fr.cur, gv, "(seq.++ "+ex.get(fr.cur, gv)+" (seq.unit "+ite(eq(errv.T, "anyNil"), anyConn, "anyNil")+"))")
+	ex.set(fr.cur, gv, sqApp(ex.get(fr.cur, gv), sqUnit(ite(eq(errv.T, "anyNil"), anyConn, "anyNil"), SAny), SAny))
 	gk := fr.ghost("dialok")
-	ex.set(fr.cur, gk, ite(eq(errv.T, "anyNil"), "(seq.++ "+ex.get(fr.cur, gk)+" (seq.unit "+anyConn+"))", ex.get(fr.cur, gk)))
+	ex.set(fr.cur, gk, ite(eq(errv.T, "anyNil"), sqApp(ex.get(fr.cur, gk), sqUnit(anyConn, SAny), SAny), ex.get(fr.cur, gk)))
 	if asIface {
 		c := vc.define("dialconn", SAny, ite(eq(errv.T, "anyNil"), anyConn, "anyNil"))
 		return tuple(&Val{T: c, S: SAny}, errv)
